@@ -59,6 +59,9 @@ class Model(object):
                     t[p] = a
                     changed.add('ipv4')
         elif k in ('flowspec', 'mpls_vpn'):
+            if op.get('nlri') or op.get('withdraw'):
+                # the same UPDATE also carries classic IPv4 prefixes (with the attributes of the message, MP attributes aside)
+                changed |= self.apply(dict(kind='ipv4', nlri=op.get('nlri', []), withdraw=op.get('withdraw', []), attr=op.get('_ipv4_attr', op['attr'])))
             t = self.t[k]
             keyf = fs_key if k == 'flowspec' else vpn_key
             if op.get('withdraw_routes'):
@@ -67,7 +70,8 @@ class Model(object):
                         del t[keyf(r)]
                         changed.add(k)
             for r in op.get('routes', []):
-                a = gen.norm(dict({str(k_): v_ for k_, v_ in op['attr'].items()}, nexthop=op.get('nexthop')))
+                # (NEXT_HOP is among the attributes of the message only when classic IPv4 prefixes travel with it)
+                a = gen.norm(dict({str(k_): v_ for k_, v_ in op['attr'].items()}, nexthop=op.get('nexthop'), with_next_hop=bool(op.get('nlri'))))
                 if t.get(keyf(r)) != a:
                     t[keyf(r)] = a
                     changed.add(k)
@@ -90,7 +94,9 @@ def encode(op):
         if op['kind'] == 'mpls_vpn':
             wr = [dict(r, label=[524288]) for r in wr]
         attrs[15] = {'afi_safi': afi_safi, 'withdraw': wr}
-    return refenc.update(attrs, None, None, asn4=True)
+    if op.get('nlri'):
+        attrs.update(op['attr'])
+    return refenc.update(attrs, op.get('nlri'), op.get('withdraw'), asn4=True)
 
 
 def rest_post(op):
@@ -157,6 +163,13 @@ def random_op(rng):
         # MP_UNREACH and MP_REACH of the same family in one UPDATE (different routes)
         both = rng.sample(pool, 2)
         op['routes'], op['withdraw_routes'] = [both[0]], [both[1]]
+    if rng.random() < 0.2:
+        # classic IPv4 prefixes travelling in the same UPDATE as the MP attribute (receive side)
+        op['dironly'] = 'recv'
+        if rng.random() < 0.7:
+            op['nlri'] = rng.sample(PFX, rng.choice([1, 2]))
+        if rng.random() < 0.5:
+            op['withdraw'] = [p for p in rng.sample(PFX, 2) if p not in op.get('nlri', [])]
     return op
 
 
@@ -217,6 +230,9 @@ class Runner(object):
         self.model = self.models[self.side]
         self.ver = self.vers[self.side]
         refused = False
+        n_ev = len(w.handler.ev)
+        if op.get('dironly') and op['dironly'] != self.side:
+            op = {k_: v_ for k_, v_ in op.items() if k_ not in ('nlri', 'withdraw', 'dironly')}
         if self.side == 'recv':
             if (op.get('attr') or {}).get(8) == ['NO-SUCH-COMMUNITY']:
                 op = dict(op, attr={**op['attr'], 8: ['NO_EXPORT']})      # a peer cannot send a community without a value
@@ -228,6 +244,13 @@ class Runner(object):
                 self.stats['send_refused'] += 1
                 refused = True
         self.stats['steps'] += 1
+        if self.side == 'recv' and op['kind'] != 'ipv4' and (op.get('nlri') or op.get('withdraw')):
+            # IPv4 prefixes next to an MP attribute: their attributes are all path attributes of that UPDATE, as the
+            # handler was given them (decoding itself is C09's subject)
+            evs = [e for e in w.handler.ev[n_ev:] if e[0] == 'update_received']
+            if len(evs) == 1:
+                op = dict(op, _ipv4_attr=evs[0][2]['attr'])
+            self.stats['mixed_updates'] = self.stats.get('mixed_updates', 0) + 1
         changed = self.model.apply(op) if not refused else set()
         pr = w.fsm.protocol
         ver = self.versions()
